@@ -14,6 +14,7 @@ mod agentkit;
 mod c08;
 mod c09;
 mod c10;
+mod c11;
 mod c16;
 mod c18;
 pub mod util;
@@ -69,6 +70,7 @@ fn run_lines() {
             "crdtsim" => c01::crdtsim(&mut t),
             "cluster" => c01::cluster(&mut t),
             "crash" => c06::crash(&mut t),
+            "sub" => c11::sub(&mut t),
             "ltx" => c07::ltx(&mut t),
             "ctx" => c07::ctx(&mut t),
             "partners" => c16::partners(&mut t),
